@@ -106,7 +106,7 @@ PROPS = {
         "assumptions": [SAMPLED, "SIGKILL keeps the page cache: power-loss durability of the rename is not decided", "mid-request mixture is explored for ingress requests only (pull/admin requests have no yield point between their two state reads)",
                         "--watch/SIGHUP delivery itself is not exercised; reloadConfig is called directly"],
         "guards": ["mode-pause", "mode-failed", "mode-body-read", "configs-differ-in-battery", "reload-inside-request", "holds-old", "holds-new", "fault-reload-fails"],
-        "parts": [{"engine": "front", "test": "TestProp_C18_Reload", "quick": 400, "thorough": 30000},
+        "parts": [{"engine": "front", "test": "TestProp_C18_Reload", "quick": 4000, "thorough": 60000, "shards": {"quick": 8}},
                   {"engine": "front", "test": "TestProp_C18_FileCrash", "quick": 150, "thorough": 3000},
                   {"engine": "front", "test": "TestProp_C18_MgmtRollback", "quick": 60, "thorough": 600}],
     },
